@@ -68,3 +68,54 @@ V("c20-name-check-eq-form", "C20", "silent",
 V("c20-validate-tree-local", "C20", "silent",
   (EXPR, "            self._tree = ast.parse(self._src, mode=\"eval\")\n", "            tree = ast.parse(self._src, mode=\"eval\")\n"),
   (EXPR, "        self._validate(self._tree)\n", "        self._validate(tree)\n        self._tree = tree\n"))
+
+# ------------------------------------------------------------------------------------------- C13
+SIMF = "piquasso/api/simulator.py"
+MODE = "piquasso/api/mode.py"
+V("c13-skip-validate-with-initial-state", "C13", {"rule": "C13a", "contains": "_validate_instructions"},
+  (SIMF, "        self._validate_instructions(instructions, d)\n\n        if initial_state is not None:",
+   "        if initial_state is None:\n            self._validate_instructions(instructions, d)\n\n        if initial_state is not None:"))
+V("c13-no-initial-state-check", "C13", {"rule": "C13a", "contains": "_validate_initial_state"},
+  (SIMF, "            self._validate_initial_state(initial_state, d)\n", ""))
+V("c13-shots-bool-float", "C13", {"rule": "C13a", "contains": "shots-test"},
+  (SIMF, "is_shots_positive_integer = isinstance(shots, int) and shots > 0", "is_shots_positive_integer = shots > 0"))
+V("c13-shots-nonneg", "C13", {"rule": "C13a", "contains": "positive"},
+  (SIMF, "isinstance(shots, int) and shots > 0", "isinstance(shots, int) and shots >= 0"))
+V("c13-order-not-checked", "C13", {"rule": "C13a", "contains": "_validate_instruction_order"},
+  (SIMF, "        self._validate_instruction_order(instructions)\n", "        pass\n"))
+V("c13-measurement-end-dropped", "C13", {"rule": "C13a", "contains": "_validate_measurements_at_end"},
+  (SIMF, "        self._validate_measurements_at_end(instructions)\n", ""))
+V("c13-modes-upper-bound-off", "C13", {"rule": "C13a", "contains": "lt_d"},
+  (SIMF, "if mode < 0 or mode >= d:", "if mode < 0 or mode > d:"))
+V("c13-validate-after-step", "C13", {"rule": "C13a", "contains": "instruction-validate"},
+  (SIMF, "            if self.config.validate:\n                instruction._validate(self._connector)\n\n            current_shots", "            current_shots"),
+  (SIMF, "            for subbranch in subbranches:\n                # NOTE", "            if self.config.validate:\n                instruction._validate(self._connector)\n\n            for subbranch in subbranches:\n                # NOTE"))
+V("c13-shots-none-refusal-dropped", "C13", {"rule": "C13a", "contains": "shots-none-refusal"},
+  (SIMF, "            and shots is None\n            and not isinstance(", "            and shots is None\n            and isinstance("))
+V("c13-q-distinct-dropped", "C13", {"rule": "C13a", "contains": "distinct"},
+  (MODE, "if not is_all and not self._is_distinct(modes):", "if False:"))
+V("c13-setter-no-validate", "C13", {"rule": "C13a", "contains": "_validate_modes"},
+  (INSTR, "        self._validate_modes(value)\n        self._modes = value", "        self._modes = value"))
+V("c13-isinstance-dispatch", "C13", {"rule": "C13a", "contains": "exact-class"},
+  (SIMF, "if type(instruction) is instruction_class:", "if isinstance(instruction, instruction_class):"))
+V("c13-map-entry-removed", "C13", {"rule": "C13b", "contains": "Kerr"},
+  ("piquasso/_simulators/fock/pure/simulator.py", "        gates.Kerr: kerr,\n", ""))
+V("c13-shots-none-allowed-unregistered", "C13", {"rule": "C13b", "contains": "ThresholdMeasurement"},
+  ("piquasso/_simulators/fock/general/simulator.py", "    _measurement_classes_allowed_with_shots_none = (\n        measurements.ParticleNumberMeasurement,",
+   "    _measurement_classes_allowed_with_shots_none = (\n        measurements.ParticleNumberMeasurement,\n        measurements.ThresholdMeasurement,"))
+V("c13-wrong-param-key", "C13", {"rule": "C13c", "contains": "phi"},
+  ("piquasso/_simulators/fock/pure/simulation_steps/__init__.py", "    xi = instruction._get_all_params(state._connector)[\"xi\"]\n    np = state._np", "    xi = instruction._get_all_params(state._connector)[\"phi\"]\n    np = state._np"))
+V("c13-step-for-wrong-class", "C13", {"rule": "C13c", "contains": "CubicPhase"},
+  ("piquasso/_simulators/fock/pure/simulator.py", "gates.CubicPhase: cubic_phase,", "gates.CubicPhase: kerr,"))
+V("c13-params-not-computed", "C13", {"rule": "C13c", "contains": "detection_covariance"},
+  ("piquasso/_simulators/gaussian/simulation_steps.py", "    detection_covariance = instruction._get_all_params(state._connector)[\n        \"detection_covariance\"\n    ]", "    detection_covariance = instruction.params[\n        \"detection_covariance\"\n    ]"))
+V("c13-shots-numeric-before-none-test", "C13", {"rule": "C13e", "contains": "shots"},
+  ("piquasso/_utils.py", "    if shots is None:\n        return {", "    weight = 1 / shots\n    if shots is None:\n        return {"))
+V("c13-preserving-rename-validator-local", "C13", "silent",
+  (SIMF, "        is_shots_positive_integer = isinstance(shots, int) and shots > 0\n\n        if not is_shots_positive_integer and shots is not None:",
+   "        shots_ok = isinstance(shots, int) and shots > 0\n\n        if shots is not None and not shots_ok:"))
+V("c13-preserving-extra-map-entry", "C13", "silent",
+  ("piquasso/_simulators/fock/pure/simulator.py", "        gates.Squeezing2: linear,\n", "        gates.Squeezing2: linear,\n        gates.ControlledX: linear,\n"))
+V("c13-preserving-validate-order-swapped", "C13", "silent",
+  (SIMF, "        self._validate_instruction_existence(instructions)\n        self._validate_instruction_modes(instructions, d)\n",
+   "        self._validate_instruction_modes(instructions, d)\n        self._validate_instruction_existence(instructions)\n"))
